@@ -188,10 +188,12 @@ Proof.
   intros H. replace (1 / 32) with (bp (-5)) by (cbn; lra). apply bpow_le. lia.
 Qed.
 
-Lemma dd1_spec E p c n : (0 <= E <= 18)%Z ->
+(* general form: the real second difference plus the rounding error 2^(E-23)
+   of p - 2c stays below the representable 11/32 *)
+Lemma dd1_spec_gen E p c n : (0 <= E <= 100)%Z ->
   fin p -> fin c -> fin n ->
   Rabs (B2R p) <= bp E -> Rabs (B2R c) <= bp E -> Rabs (B2R n) <= bp E ->
-  Rabs (B2R p - 2 * B2R c + B2R n) <= 5 / 16 ->
+  Rabs (B2R p - 2 * B2R c + B2R n) + bp (E - 23) <= 11 / 32 ->
   fin (dd1 p c n) /\ Rabs (B2R (dd1 p c n)) <= 11 / 32.
 Proof.
   intros HE Fp Fc Fn Hp Hc Hn Hd. unfold dd1.
@@ -210,7 +212,6 @@ Proof.
   pose proof (RN_err _ (E + 2) ltac:(lia) Ht) as Et. rewrite <- Rt in Et.
   rewrite fexp32_eq, Z.max_l in Et by lia.
   replace (E + 2 - 24)%Z with (E - 23 + 1)%Z in Et by ring. rewrite <- bp_double in Et.
-  pose proof (bp_le_32 E ltac:(lia)) as H32.
   set (t := B2R (S.sub p (S.mul c s2))) in *.
   assert (Hsum : Rabs (t + B2R n) <= 11 / 32).
   { replace (t + B2R n) with ((t - (B2R p - B2R (S.mul c s2))) + (B2R p - 2 * B2R c + B2R n))
@@ -219,6 +220,16 @@ Proof.
   assert (Hs1 : Rabs (t + B2R n) <= bp 0) by (cbn; lra).
   destruct (add_ok (S.sub p (S.mul c s2)) n 0 Ft Fn ltac:(lia) Hs1) as [Fd Rd].
   split; [exact Fd|]. rewrite Rd. apply RN_le_format; [apply format_11_32|exact Hsum].
+Qed.
+
+Lemma dd1_spec E p c n : (0 <= E <= 18)%Z ->
+  fin p -> fin c -> fin n ->
+  Rabs (B2R p) <= bp E -> Rabs (B2R c) <= bp E -> Rabs (B2R n) <= bp E ->
+  Rabs (B2R p - 2 * B2R c + B2R n) <= 5 / 16 ->
+  fin (dd1 p c n) /\ Rabs (B2R (dd1 p c n)) <= 11 / 32.
+Proof.
+  intros HE Fp Fc Fn Hp Hc Hn Hd. apply (dd1_spec_gen E); try assumption; [lia|].
+  pose proof (bp_le_32 E ltac:(lia)). lra.
 Qed.
 
 (* ---------- the comparison ---------- *)
@@ -272,5 +283,21 @@ Proof.
   rewrite far32_coords.
   destruct (dd1_spec E _ _ _ HE F1 F2 F3 B1 B2 B3 Dx) as [Fx Hx].
   destruct (dd1_spec E _ _ _ HE F4 F5 F6 B4 B5 B6 Dy) as [Fy Hy].
+  apply far1_false; assumption.
+Qed.
+
+(* general form of the same *)
+Lemma far32_false_gen E p c n : (0 <= E <= 100)%Z ->
+  fin (px p) -> fin (px c) -> fin (px n) -> fin (py p) -> fin (py c) -> fin (py n) ->
+  Rabs (B2R (px p)) <= bp E -> Rabs (B2R (px c)) <= bp E -> Rabs (B2R (px n)) <= bp E ->
+  Rabs (B2R (py p)) <= bp E -> Rabs (B2R (py c)) <= bp E -> Rabs (B2R (py n)) <= bp E ->
+  Rabs (B2R (px p) - 2 * B2R (px c) + B2R (px n)) + bp (E - 23) <= 11 / 32 ->
+  Rabs (B2R (py p) - 2 * B2R (py c) + B2R (py n)) + bp (E - 23) <= 11 / 32 ->
+  far32 p c n = false.
+Proof.
+  intros HE F1 F2 F3 F4 F5 F6 B1 B2 B3 B4 B5 B6 Dx Dy.
+  rewrite far32_coords.
+  destruct (dd1_spec_gen E _ _ _ HE F1 F2 F3 B1 B2 B3 Dx) as [Fx Hx].
+  destruct (dd1_spec_gen E _ _ _ HE F4 F5 F6 B4 B5 B6 Dy) as [Fy Hy].
   apply far1_false; assumption.
 Qed.
